@@ -590,6 +590,7 @@ def run(case):
                    'outcomes': [t.outcomes for t in w.tasks],
                    'yield_points': s.steps},
         'digest': w.sim.digest(repr(w.rec.events), w.viol, s.trace, evals),
+        'schedule': list(s.trace),
     }
 
 
